@@ -81,6 +81,10 @@ typedef struct private_state {
   bitrate_manager_state bms;
 
   ogg_int64_t sample_count;
+
+  /* decode side: vorbis_synthesis_lapout has already made the buffer
+     contiguous and no block has arrived since */
+  int lapout_done;
 } private_state;
 
 /* codec_setup_info contains all the setup information specific to the
